@@ -162,7 +162,7 @@ macro_rules! bit_field_vec {
 }
 
 /// A vector of bit fields of fixed width.
-#[derive(Epserde, Debug, Clone, Hash, MemDbg, MemSize)]
+#[derive(Epserde, Debug, Clone, MemDbg, MemSize)]
 pub struct BitFieldVec<W: Word = usize, B = Vec<W>> {
     /// The underlying storage.
     bits: B,
@@ -918,6 +918,24 @@ impl<W: Word, B: AsRef<[W]>, C: AsRef<[W]>> PartialEq<BitFieldVec<W, C>> for Bit
 }
 
 impl Eq for BitFieldVec {}
+
+/// Hashes exactly what [equality](PartialEq) compares: the bit width, the
+/// length, and the bits of the elements; bits of the backend beyond the last
+/// element (and any extra word) are ignored, so equal vectors have equal
+/// hashes.
+impl<W: Word + core::hash::Hash, B: AsRef<[W]>> core::hash::Hash for BitFieldVec<W, B> {
+    fn hash<H: core::hash::Hasher>(&self, state: &mut H) {
+        self.bit_width.hash(state);
+        self.len.hash(state);
+        let bit_len = self.len * self.bit_width;
+        let bits = self.bits.as_ref();
+        bits[..bit_len / W::BITS].hash(state);
+        let residual = bit_len % W::BITS;
+        if residual != 0 {
+            (bits[bit_len / W::BITS] << (W::BITS - residual)).hash(state);
+        }
+    }
+}
 
 // Support for unchecked iterators
 
